@@ -371,6 +371,9 @@ def gw_spec(rng, start, end, depths=(0.3, 0.8, 1.5, 2.5, 6.0, 30.0), p_multi=0.4
         method = pick(rng, ["Constant", "Variable"])
         base = float(pick(rng, list(depths)))
         vals = [round(max(0.1, base + float(rng.normal(0, 0.6))), 2) for _ in offs]
+        for j in range(1, len(vals)):
+            if chance(rng, 0.3):
+                vals[j] = vals[j - 1]       # a plateau: the table did not move between two observations
         return {"method": method, "dates": [fmt(start + dt.timedelta(days=o)) for o in offs],
                 "values": vals}
     return {"method": "Constant", "dates": [fmt(start)], "values": [float(pick(rng, list(depths)))]}
